@@ -194,12 +194,10 @@ def report(ctx, build, foamj, pname, text, q, kind, i, j, shrink_budget, trees=N
     sig = root_cause(kind, i, j) or "java|%s|Q%d|%s" % (pname, q, kind)
     extra = ""
     if trees is not None and kind == "output-diff":
-        # an expression program: which functions differ, and is it the recorded defect of the printer's table?
+        # an expression program: which functions differ
         bad = jexpr.differing_functions(strip_interp_noise(i["stdout"]), j["stdout"])
         shown = [jexpr.render(trees[k]) for k in bad if 0 <= k < len(trees)]
         extra = " differing functions: " + "; ".join("f%d = %s" % (k, jexpr.render(trees[k])) for k in bad if 0 <= k < len(trees))[:600]
-        if bad and all(0 <= k < len(trees) and jexpr.table_defect(trees[k]) for k in bad):
-            sig = "jprint|table-inconsistent-with-java"
         shrink_budget = 0
     small = text
     if shrink_budget and ctx._listed(sig) is None:
